@@ -213,10 +213,10 @@ theorem defs_roundtrip {V : Type} (l : List (String × Sch V)) (h : l.all (fun k
     obtain ⟨i1, i2, i3⟩ := ih h.2
     have hk := h.1
     simp only [defSimpleBack, Bool.and_eq_true, Bool.not_eq_true'] at hk
-    obtain ⟨⟨⟨⟨⟨hnb, hdisc⟩, haddl⟩, hv2⟩, _⟩, hfmt⟩ := hk
+    obtain ⟨⟨⟨hnb, hv2⟩, _⟩, hfmt⟩ := hk
     have hnb3 := noBinary3_toV3S ks.2 hnb
     have hso := fromV3SO_eq [] (toV3S ks.2) hnb3
-    have hrt := roundtripS_partial ks.2 hdisc haddl hv2
+    have hrt := roundtripS ks.2 hv2
     have hb1 : isBinaryFmt (toV3S ks.2) = false := by
       cases hs : ks.2 with
       | ref k n => simp [toV3S, isBinaryFmt]
